@@ -453,10 +453,22 @@ func (vc *VC) withAxioms(header, body string) string {
 
 func (vc *VC) incrementalScript(timeoutMs int) string {
 	hdr := fmt.Sprintf("(set-option :timeout %d)\n", timeoutMs) + vc.header()
-	return vc.withAxioms(hdr, vc.incrementalBody())
+	return vc.withAxioms(hdr, vc.incrementalBodyFor(func(o *Oblig) bool { return !o.IsCover }))
 }
 
-func (vc *VC) incrementalBody() string {
+// coverScript: the reachability covers only, over the quantifier-free part of the facts (fewer
+// assumptions: `sat` there is decidable and means the point is reachable under every ground fact).
+func (vc *VC) coverScript(timeoutMs int) string {
+	hdr := fmt.Sprintf("(set-option :timeout %d)\n", timeoutMs) + vc.header()
+	return dropQuantified(hdr + vc.incrementalBodyFor(func(o *Oblig) bool { return o.IsCover }))
+}
+
+func (vc *VC) incrementalBody() string { return vc.incrementalBodyFor(func(*Oblig) bool { return true }) }
+
+// incrementalBodyFor: the incremental script restricted to the obligations selected by keep (the
+// others are neither checked nor skipped as assumptions: their facts stay assumed downstream exactly
+// as in the full script).
+func (vc *VC) incrementalBodyFor(keep func(*Oblig) bool) string {
 	var sb strings.Builder
 	for _, s := range vc.steps {
 		switch s.Kind {
@@ -465,7 +477,9 @@ func (vc *VC) incrementalBody() string {
 		case sAssume:
 			sb.WriteString("(assert " + s.Text + ")\n")
 		case sOblig, sCover:
-			fmt.Fprintf(&sb, "(push 1)\n(assert %s)\n(check-sat)\n(pop 1)\n", vc.negGoal(s.Ob))
+			if keep(s.Ob) {
+				fmt.Fprintf(&sb, "(push 1)\n(assert %s)\n(check-sat)\n(pop 1)\n", vc.negGoal(s.Ob))
+			}
 		}
 	}
 	return sb.String()
@@ -843,7 +857,9 @@ func (vc *VC) mentionsGlobal(g *ssa.Global) bool {
 			}
 		}
 		for _, a := range vc.spec.Ats {
-			texts = append(texts, a.Clause.Text)
+			if a.Clause != nil {
+				texts = append(texts, a.Clause.Text)
+			}
 		}
 		for _, t := range texts {
 			if mentionsIdent(t, g.Name()) {
